@@ -47,7 +47,7 @@ def run_job(env, spec):
     entry = lookup(spec)
     job = Job(spec.get("pid", PID), env, spec, entry, spec.get("catalogue", "checks.catalogue"))
     job.cfg["want_ref"] = False
-    kit = Kit(env, None, job.cfg["n"], 2)
+    kit = Kit(env, None, job.cfg["n"], job.cfg.get("r", 2))
     # run E: errors on
     tracesE = job.explore()
     valsE = job.vals
